@@ -111,9 +111,10 @@ struct Session {
     bool early;     // construct IndexClassification, IndexHamiltonian and Symmetrizer before any prepare() call
     bool earlyHam, earlySymm;
     double chiRtol; // user-set ReduceResonanceTolerance for two-particle objects (<= 0: library default)
+    Lattice* Lsaved;
     IndexClassification* earlyIdx; const Lattice* earlyIdxFor;   // declared by `earlyctor`, used by the next `index` on the same lattice
     bool stress;    // every prepare()/compute() call is issued twice, values are re-evaluated, objects are copied
-    Session() : L(new Lattice), Idx(0), Ham(0), Symm(0), S(0), H(0), DM(0), Ops(0), GFC(0), TPC(0), early(false), earlyHam(false), earlySymm(false), chiRtol(0), earlyIdx(0), earlyIdxFor(0), stress(false) {}
+    Session() : L(new Lattice), Idx(0), Ham(0), Symm(0), S(0), H(0), DM(0), Ops(0), GFC(0), TPC(0), early(false), earlyHam(false), earlySymm(false), chiRtol(0), Lsaved(0), earlyIdx(0), earlyIdxFor(0), stress(false) {}
 };
 
 static void dumpParts(const char* kind, unsigned i, unsigned j, FieldOperator& op) {
@@ -239,6 +240,14 @@ int main(int argc, char** argv) {
                 static int ncopies = 0;
                 Lattice* L2 = new Lattice(*s.L);
                 if (++ncopies % 2) { delete s.L; s.L = L2; } else { delete L2; }
+                out << "o ok\n";
+            } else if (cmd == "fork") {
+                // work continues on a COPY of the lattice; the original stays alive and is returned to by `unfork`
+                s.Lsaved = s.L;
+                s.L = new Lattice(*s.L);
+                out << "o ok\n";
+            } else if (cmd == "unfork") {
+                if (s.Lsaved) { s.L = s.Lsaved; s.Lsaved = 0; }     // the modified copy stays alive (it shares nothing that may be freed)
                 out << "o ok\n";
             } else if (cmd == "dumplattice") {
                 dumpLattice(*s.L);
@@ -694,6 +703,17 @@ int main(int argc, char** argv) {
                         << " " << cplxStr(G13(n1)) << " " << cplxStr(G24(n2)) << " " << cplxStr(G14(n1)) << " " << cplxStr(G23(n2)) << "\n";
                     bool same = Ve(n1, n2, n3) == V(n1, n2, n3) && Ve.value(n1, n2, n3) == V.value(n1, n2, n3);
                     out << "o idem vertex " << i << " " << j << " " << k << " " << l << " " << n1 << " " << n2 << " " << n3 << " " << int(same) << "\n";
+                }
+                {   // the storage re-filled with the DEFAULT window (compute() = no storage) and with a smaller one: every read
+                    // must still be the value of the formula
+                    V.compute();
+                    bool same0 = true;
+                    for (size_t q = 0; q < nt; ++q) same0 = same0 && V(tr[3*q], tr[3*q+1], tr[3*q+2]) == V.value(tr[3*q], tr[3*q+1], tr[3*q+2]);
+                    for (long n1 = -3; n1 < 3; ++n1) for (long n2 = -3; n2 < 3; ++n2)
+                        same0 = same0 && V(n1, n2, n1) == V.value(n1, n2, n1) && V(n1, n2, n2 - 1) == V.value(n1, n2, n2 - 1);
+                    if (N > 1) { V.compute(N - 1);
+                        for (size_t q = 0; q < nt; ++q) same0 = same0 && V(tr[3*q], tr[3*q+1], tr[3*q+2]) == V.value(tr[3*q], tr[3*q+1], tr[3*q+2]); }
+                    out << "o idem vertex " << i << " " << j << " " << k << " " << l << " refill " << int(same0) << "\n";
                 }
             } else {
                 out << "o badcmd\n";
